@@ -63,11 +63,8 @@ func runC19(r *report.Run) {
 	}
 	all := asmVariants()
 	variants := []asmVariant{all[5], all[2]} // listing off / base unset; listing on / base $008000
-	if thorough {
-		variants = all
-	}
 	var capCases int64
-	hist, trans, st := asmHistorySearch(depth, variants, func(v asmVariant, al []asmOp, idx []int) (string, string, int, *asmHistory) {
+	visit := func(v asmVariant, al []asmOp, idx []int) (string, string, int, *asmHistory) {
 		ops := make([]asmOp, len(idx))
 		for i, k := range idx {
 			ops[i] = al[k]
@@ -86,8 +83,15 @@ func runC19(r *report.Run) {
 			}
 		}
 		return "", "", n, nil
-	}, r, 0)
+	}
+	hist, trans, st := asmHistorySearch(depth, variants, visit, r, 0)
 	capCases = st
+	if thorough {
+		// all ten constructor variants one level shallower (the deep pass above runs on two of them:
+		// depth 5 on all ten is 2.7*10^9 (history, capacity) cases, well over an hour on 16 cores)
+		h2, t2, s2 := asmHistorySearch(depth-1, all, visit, r, 0)
+		hist, trans, capCases = hist+h2, trans+t2, capCases+s2
+	}
 	r.Set("states", capCases)
 	r.Set("transitions", trans)
 	r.Set("traces_validated_against_impl", capCases)
@@ -95,7 +99,7 @@ func runC19(r *report.Run) {
 	r.Set("distinct_nontrivial", capCases-hist)
 	r.Set("histories", hist)
 	r.Set("history_x_capacity_cases", capCases)
-	r.Set("bounds", map[string]interface{}{"history_depth": depth, "alphabet": len(asmAlphabet()), "constructor_variants": len(variants), "capacities": "every capacity from 0 to program size + 1, plus the nil-target (dry-run) emitter"})
+	r.Set("bounds", map[string]interface{}{"history_depth": depth, "alphabet": len(asmAlphabet()), "constructor_variants": len(variants), "thorough_second_pass": "all 10 constructor variants at depth 4", "capacities": "every capacity from 0 to program size + 1, plus the nil-target (dry-run) emitter"})
 	r.Set("rule", "every call sequence up to the depth x every buffer capacity from 0 to the program's size + 1 and the nil-target emitter: each call runs on a fresh real Emitter and on the capacity model; a call that does not fit must panic and leave Bytes/Len/PC/Flags/labels unchanged, the history continues after a refusal, a call that fits must behave as in the unbounded model, and the nil-target emitter must report the same PC, labels and flags after every call; non-trivial = capacity below the program size or nil target (at least one call differs from the roomy run)")
 	r.Sample(asmHistory{Variant: variants[0], Ops: []string{"LDA_abs($1234)", "JSL($123456)", "NOP"}, Capacity: 5})
 	r.Sample(asmHistory{Variant: variants[1], Ops: []string{"SEP(#$20)", "LDA_imm8_b($7F)", "EmitBytes(17)"}, Capacity: -1})
